@@ -4,6 +4,7 @@ C19 helper lemmas: list sums, the local step relation, lock effects, invariant p
 import CobaVerif.Model.C19
 import CobaVerif.Generated.C19Consts
 import CobaVerif.Generated.C19Protocol
+import CobaVerif.Generated.C19Keys
 
 namespace Coba.C19
 set_option linter.unusedSimpArgs false
@@ -3019,5 +3020,55 @@ theorem generated_lock_blocks' (idx : Nat → Nat) (arr : Nat → Int) (cache : 
 theorem generated_key_identity' :
     Generated.cacheNameKeyExpr = modelCacheNameKeyExpr ∧ Generated.cacheNameSuffix = modelCacheNameSuffix ∧
     Generated.indexKeyExpr = modelIndexKeyExpr := by decide
+
+
+/-! ## Phase 6: typed keys -/
+theorem idxOf_slot' {h : Nat → Nat} {reps : List KeyRep} (hr : slotsRespectEq h reps = true) :
+    ∀ r ∈ reps, idxOf h reps r.ident = slotOf h r := by
+  intro r hm
+  unfold idxOf slotOf
+  cases hf : reps.find? (fun x => x.ident == r.ident) with
+  | none =>
+    have := List.find?_eq_none.mp hf r hm
+    simp at this
+  | some a =>
+    have ha := List.mem_of_find?_eq_some hf
+    have hp := List.find?_some hf
+    simp at hp
+    simp only [slotsRespectEq, List.all_eq_true] at hr
+    have := hr a ha r hm
+    simp [hp] at this
+    simpa using this
+
+theorem typed_keys_exclusion' {h : Nat → Nat} {reps : List KeyRep} (hr : slotsRespectEq h reps = true)
+    {progs : List (List (List Instr))} {s : St} (hs : Reachable (idxOf h reps) progs s)
+    {i j : Nat} {c d : Caller} {a : KeyRep} (ha : a ∈ reps)
+    (hi : s.cs[i]? = some c) (hj : s.cs[j]? = some d) (hne : j ≠ i) (hw : c.pc.writeKey = some a.ident) :
+    ∀ b ∈ reps, (b.ident ∈ d.reads ∨ d.pc.writeKey = some b.ident ∨ b.ident ∈ c.reads) → slotOf h b ≠ slotOf h a ∧ b.ident ≠ a.ident := by
+  intro b hb hor
+  have me := mutual_exclusion' hs hi hj hne hw
+  have e1 := idxOf_slot' hr a ha
+  have e2 := idxOf_slot' hr b hb
+  have key : idxOf h reps b.ident ≠ idxOf h reps a.ident := by
+    rcases hor with h1 | h1 | h1
+    · exact me.2.1 _ h1
+    · exact me.2.2 _ h1
+    · exact me.1 _ h1
+  refine ⟨by rw [← e1, ← e2]; exact key, ?_⟩
+  intro he; rw [he] at key; exact key rfl
+
+theorem typed_keys_counterexample' :
+    slotsRespectEq id [⟨1, 1⟩, ⟨1, 2⟩] = false ∧
+    ¬ ∃ idx : Nat → Nat, ∀ r ∈ [(⟨1, 1⟩ : KeyRep), ⟨1, 2⟩], idx r.ident = slotOf id r := by
+  refine ⟨by decide, ?_⟩
+  rintro ⟨idx, hx⟩
+  have h1 := hx ⟨1, 1⟩ (by simp)
+  have h2 := hx ⟨1, 2⟩ (by simp)
+  simp [slotOf] at h1 h2
+  omega
+
+
+theorem generated_memory_key_identity' :
+    Generated.memoryKeysExtracted = true ∧ Generated.memoryKeyExprs ≠ [] ∧ ∀ e ∈ Generated.memoryKeyExprs, e = modelMemoryKeyExpr := by decide
 
 end Coba.C19
